@@ -4,6 +4,7 @@ from __future__ import annotations
 
 from .. import gen
 from ..monitors import RegionpropsMonitor
+from ..ops import OpGen
 from . import common
 
 PROP = "C08"
@@ -13,12 +14,19 @@ RULE = (
     "subsets of area/pos/ellipse_axis_radii/circularity/perimeter); after every edit, undo and "
     "redo every enabled regionprops value of every node is compared with (i) plain numpy (area "
     "= pixel count x voxel size, pos = mean coordinate x scale, rel-tol 1e-9) and (ii) a "
-    "from-scratch regionprops computation on a copy of the same array. evaluations = value "
-    "comparisons; distinct = (feature, operation kind, scale class, dimensionality)"
+    "from-scratch regionprops computation on a copy of the same array, once frame by frame and "
+    "once node by node on a frame that holds only that node's mask. Features are also "
+    "disabled / re-enabled (with recomputation) at random points, nodes are added with "
+    "measurements passed next to the pixels, and a scripted scenario (disable k, change a mask, "
+    "delete the node, enable k, undo, redo, undo) is injected; 3-D ellipse_axis_radii runs on "
+    "masks that contain a 2x2x2 cube. evaluations = value comparisons; distinct = (feature, "
+    "operation kind, scale class, dimensionality)"
 )
 ASSUMPTIONS = ["2-D anisotropic perimeter/circularity excluded (scikit-image raises "
-               "NotImplementedError)", "3-D ellipse_axis_radii excluded (library raises on flat "
-               "masks)", "values loaded rather than computed are not judged"]
+               "NotImplementedError)", "3-D ellipse_axis_radii: an edit that makes a mask flat "
+               "may be refused by the library with 'math domain error' (counted as a refusal)",
+               "values are judged only while their feature is enabled; enabling is always "
+               "done with recomputation here (C10 covers recompute=False)"]
 
 
 def make_monitors():
@@ -26,13 +34,34 @@ def make_monitors():
 
 
 def cfg_fn(rng):
-    cfg = gen.random_config(rng, seg=True, p3d=0.2, extras=True)
+    cfg = gen.random_config(rng, seg=True, p3d=0.25, extras=True, ellipse3d=True)
     if cfg.ndim == 4:
         cfg.T = min(cfg.T, 4)
     return cfg
 
 
-WEIGHTS = {"paint": 8, "update_attrs": 0.2, "swap": 0.5, "add_node": 4, "delete_node": 3}
+class C08OpGen(OpGen):
+    def gen_features(self, tracks):
+        ik = self.iou_key(tracks)
+        ks = [k for k in self.toggleable(tracks) if k != ik]
+        if not ks:
+            return None
+        rng = self.rng
+        # one key, or several in one call (enabled together, disabled together, re-enabled
+        # one by one ...)
+        n = 1 if rng.random() < 0.5 else rng.randint(2, min(4, len(ks)))
+        sel = rng.sample(ks, min(n, len(ks)))
+        on = [k for k in sel if k in tracks.annotators.features]
+        if on and rng.random() < 0.55:
+            return {"op": "features", "disable": on}
+        return {"op": "features", "enable": sel, "recompute": True}
+
+    def scenario_keys(self, tracks, enabled):
+        return [k for k in enabled if k != self.iou_key(tracks)]
+
+
+WEIGHTS = {"paint": 8, "update_attrs": 0.2, "swap": 0.5, "add_node": 4, "delete_node": 3,
+           "features": 1.2, "scenario": 0.8, "prim_seg": 0.6}
 
 
 def plan(tier, seed):
@@ -41,7 +70,7 @@ def plan(tier, seed):
 
 def run_shard(spec):
     return common.run_sessions(spec, PROP, make_monitors, cfg_fn, nsteps=(10, 25),
-                               weights=WEIGHTS, refusal_rate=0.3)
+                               weights=WEIGHTS, refusal_rate=0.3, opgen=C08OpGen)
 
 
 def floors(tier):
